@@ -3,8 +3,8 @@
    over the callback, the numeric kernel (opaque payload P), the configuration C (initial tensor shapes of any
    dimension / mode sizes / ranks, stop arguments, rank-growth window) and the number of sweeps allowed (fuel). *)
 From Coq Require Import List Arith Lia PeanoNat Bool ZArith.
-From TV Require Import Num.Ops Model.Cross Proofs.CrossIdx Proofs.CrossGeo Proofs.CrossP Proofs.Cross05P
-  Proofs.Cross05PSim.
+From TV Require Import Num.Ops Lin.BigSum Model.Cross Proofs.CrossIdx Proofs.CrossGeo Proofs.CrossP Proofs.Cross05P
+  Proofs.Cross05PSim Proofs.Cross05PInterp Proofs.Cross05PEx.
 Import ListNotations.
 
 Section C05.
@@ -83,3 +83,88 @@ Theorem C05_info_consistent :
   s_evld s = accdata_m K accdata C (s_ne s) (sY s).
 Proof. exact (info_consistent K isinf cb pones pdotL pdotR pvals pick pcoreG pfacR erank accuracy accdata). Qed.
 End C05.
+
+(* ================================================================================================================
+   Numeric part: exactness on low-rank targets.  Any commutative ring K (ring laws Rth); function view: the target
+   is a function A of the multi-index; one position of a left-to-right half sweep is described by the mode size, the
+   rows [ind] selected by maxvol, the matrix B it returns (the core is G[a, j, c] = B[a + r j, c]) and the right
+   index set [cols]; the candidate row number t at left index set L is  cand L t = L[t mod |L|] ++ [t / |L|]. *)
+Section C05num.
+Context {T : Type} (K : ops T).
+Hypothesis Rth : rng K.
+
+(* core_interp: what QR and maxvol guarantee (Z = Q R, B Q[ind] = Q) gives B Z[ind] = Z *)
+Theorem C05_core_interp :
+  forall (N rq m : nat) (ind : list nat) (Q R B Z : nat -> nat -> T),
+  (forall t c, t < N -> c < m -> Z t c = bsum K rq (fun k => omul K (Q t k) (R k c))) ->
+  (forall t k, t < N -> k < rq -> bsum K (length ind) (fun s => omul K (B t s) (Q (nth s ind O) k)) = Q t k) ->
+  Forall (fun t => t < N) ind ->
+  forall t c, t < N -> c < m -> bsum K (length ind) (fun s => omul K (B t s) (Z (nth s ind O) c)) = Z t c.
+Proof. exact (core_interp K Rth). Qed.
+
+(* skeleton_exact: A = X Y with inner size rho, X[I,:] has a left inverse Xi and Y[:,J] a right inverse Yj (both
+   intersections invertible): A = A[:,J] (Yj Xi) A[I,:] entrywise, and Yj Xi is the inverse of A[I,J] *)
+Theorem C05_skeleton_exact :
+  forall (m n rho : nat) (A X Y : nat -> nat -> T) (I J : list nat) (Xi Yj : nat -> nat -> T),
+  length I = rho -> length J = rho ->
+  (forall i j, i < m -> j < n -> A i j = bsum K rho (fun al => omul K (X i al) (Y al j))) ->
+  Forall (fun i => i < m) I -> Forall (fun j => j < n) J ->
+  (forall al be, al < rho -> be < rho -> bsum K rho (fun g => omul K (Xi al g) (X (nth g I O) be)) = delta K al be) ->
+  (forall al be, al < rho -> be < rho -> bsum K rho (fun g => omul K (Y al (nth g J O)) (Yj g be)) = delta K al be) ->
+  forall i j, i < m -> j < n ->
+    bsum K rho (fun b => bsum K rho (fun g =>
+      omul K (omul K (A i (nth b J O)) (bsum K rho (fun k => omul K (Yj b k) (Xi k g)))) (A (nth g I O) j))) = A i j.
+Proof. exact (skeleton_exact K Rth). Qed.
+
+(* TT-rank rho gives the spanning hypothesis: if the unfolding factorises, A(p ++ u) = sum_alpha X p alpha * Y alpha u
+   with inner size rho, and the sampled columns Y[:, cols] have a right inverse (the algebraic content of "generic"),
+   every column of the unfolding is the stated combination of the sampled columns *)
+Theorem C05_span_of_rank :
+  forall (A : row -> T) (okP okS : row -> Prop) (rho : nat) (X : row -> nat -> T) (Y : nat -> row -> T)
+         (cols : list row) (Nv : nat -> nat -> T),
+  (forall p u, okP p -> okS u -> A (p ++ u) = bsum K rho (fun al => omul K (X p al) (Y al u))) ->
+  (forall c, c < length cols -> okS (nth c cols [])) ->
+  (forall al be, al < rho -> be < rho ->
+     bsum K (length cols) (fun c => omul K (Y al (nth c cols [])) (Nv c be)) = delta K al be) ->
+  forall p u, okP p -> okS u ->
+    A (p ++ u) = bsum K (length cols) (fun c => omul K (A (p ++ nth c cols []))
+                                                 (bsum K rho (fun be => omul K (Nv c be) (Y be u)))).
+Proof. exact (span_of_rank K Rth). Qed.
+
+(* cross_exact (conditional): one left-to-right half sweep.  If at every position the selected rows are valid, B
+   interpolates the sampled value matrix (samp_ok: B Z[ind] = Z, which core_interp derives from the QR / maxvol
+   contracts) and the sampled columns span the unfolding (span_ok, which span_of_rank derives from TT-rank rho with
+   invertible intersections), then for EVERY multi-index q the product of the cores G_0[q_0] ... G_{d-1}[q_{d-1}]
+   (the vector v'), closed with the target values at the last index set L' (the factor the code folds into the last
+   core), equals the target A q.  Any number of positions, any mode sizes, any numbers of selected rows (also more
+   rows than columns: rank growth). *)
+Theorem C05_cross_exact_cond :
+  forall (A : row -> T) (ps : list (@posd T)) (q : row),
+  steps_ok K A ps [[]] -> Forall2 lt q (map p_n ps) ->
+  let (L', v') := runI K ps [[]] (e0 K) q in
+  bsum K (length L') (fun a => omul K (v' a) (A (nth a L' []))) = A q.
+Proof. exact (ltr_exact K Rth). Qed.
+End C05num.
+
+(* ---------------- non-vacuity ---------------- *)
+(* a concrete cached / uncached pair over Z (3 modes, two sweeps): the hypotheses of C05_cache_transparent hold, the
+   uncached run evaluates 28 indices, the cached run 5 (+ 23 cache hits), and the dictionary is the 5 evaluated pairs *)
+Example C05_cache_transparent_example :
+  (forall k I, fZ k I = Some (map gZ I)) /\ cache_ok OZ gZ [] /\
+  exists su, crossZ (set_cache CZ None) 3 = Ok su /\ k_stop (sK su) = Some Snswp /\
+    k_stop (sK (runZ (set_cache CZ (Some [])) 3)) = Some Snswp /\
+    k_m (sK su) = 28 /\ k_m (sK (runZ (set_cache CZ (Some [])) 3)) = 5 /\
+    k_mc (sK (runZ (set_cache CZ (Some [])) 3)) = 23 /\
+    k_cache (sK (runZ (set_cache CZ (Some [])) 3)) =
+      Some [([0; 0; 0], 8%Z); ([1; 0; 0], 9%Z); ([0; 1; 0], 10%Z); ([0; 2; 0], 12%Z); ([0; 0; 1], 12%Z)].
+Proof. exact ex_cache_transparent. Qed.
+
+(* the hypotheses of C05_cross_exact_cond hold for the rank-1 target A[i, j] = (i+1)(j+1) over Z ... *)
+Example C05_cross_exact_example : steps_ok OZ AZ psZ [[]].
+Proof. exact ex_steps_ok. Qed.
+(* ... and the half sweep returns its four entries *)
+Example C05_cross_exact_example_values :
+  map (fun q => let (L', v') := runI OZ psZ [[]] (e0 OZ) q in
+                bsum OZ (length L') (fun a => Z.mul (v' a) (AZ (nth a L' []))))
+      [[0; 0]; [1; 0]; [0; 1]; [1; 1]] = [1; 2; 2; 4]%Z.
+Proof. exact ex_ltr_values. Qed.
